@@ -224,6 +224,44 @@ def _sig_takes_c_string(db, sig_text):
     return False
 
 
+def traits_witness(chk):
+    """W-TRAITS: etl::char_traits<C> agrees with std::char_traits<C> on its constexpr members at the boundary characters
+    (0, 1, 0x7f, 0x80, 0xff / max): lt/eq decide every comparison and search of the views, and std orders `char` as unsigned
+    char. Each obligation is a static_assert compiled by g++ -fsyntax-only."""
+    from witness import wit
+    pro = "#include <etl/string.hpp>\n#include <etl/string_view.hpp>\n#include <string>\n#include <string_view>\n"
+    tu = wit.TU("c08_traits", pro)
+    types = {"char": ["'\\0'", "'\\x01'", "'a'", "'\\x7f'", "'\\x80'", "'\\xff'"],
+             "wchar_t": ["L'\\0'", "L'a'", "L'\\x7f'", "L'\\x80'", "wchar_t(-1)"],
+             "char8_t": ["u8'\\0'", "u8'a'", "u8'\\x7f'", "char8_t(0x80)", "char8_t(0xff)"],
+             "char16_t": ["u'\\0'", "u'a'", "char16_t(0x80)", "char16_t(0xfffe)"],
+             "char32_t": ["U'\\0'", "U'a'", "char32_t(0x80)", "char32_t(0xffffffff)"]}
+    for ty, vals in types.items():
+        E, S = "etl::char_traits<%s>" % ty, "std::char_traits<%s>" % ty
+        for a in vals:
+            tu.add("static_assert(%s::to_int_type(%s) == %s::to_int_type(%s));" % (E, a, S, a), "char_traits<%s>::to_int_type(%s)" % (ty, a))
+            tu.add("static_assert(%s::not_eof(%s::to_int_type(%s)) == %s::not_eof(%s::to_int_type(%s)));" % (E, E, a, S, S, a),
+                   "char_traits<%s>::not_eof(%s)" % (ty, a))
+            for b in vals:
+                tu.add("static_assert(%s::lt(%s, %s) == %s::lt(%s, %s));" % (E, a, b, S, a, b), "char_traits<%s>::lt(%s, %s)" % (ty, a, b))
+                tu.add("static_assert(%s::eq(%s, %s) == %s::eq(%s, %s));" % (E, a, b, S, a, b), "char_traits<%s>::eq(%s, %s)" % (ty, a, b))
+                tu.add("static_assert([] { constexpr %s x[1] = {%s}; constexpr %s y[1] = {%s}; auto sg = [](int v) { return (v > 0) - (v < 0); }; "
+                       "return sg(%s::compare(x, y, 1)) == sg(%s::compare(x, y, 1)); }());" % (ty, a, ty, b, E, S),
+                       "char_traits<%s>::compare({%s}, {%s}, 1)" % (ty, a, b))
+                tu.add("static_assert([] { constexpr %s x[1] = {%s}; constexpr %s y[1] = {%s}; auto sg = [](int v) { return (v > 0) - (v < 0); }; "
+                       "return sg(etl::basic_string_view<%s>(x, 1).compare(etl::basic_string_view<%s>(y, 1))) == "
+                       "sg(std::basic_string_view<%s>(x, 1).compare(std::basic_string_view<%s>(y, 1))); }());" % (ty, a, ty, b, ty, ty, ty, ty),
+                       "basic_string_view<%s>{%s}.compare({%s})" % (ty, a, b))
+        tu.add("static_assert(%s::eof() == %s::eof());" % (E, S), "char_traits<%s>::eof()" % ty)
+        tu.add("static_assert(std::is_same_v<%s::int_type, %s::int_type>);" % (E, S), "char_traits<%s>::int_type" % ty)
+    res = wit.compile_many([tu])
+    results, un = res[tu.name]
+    wit.judge(chk, "W-TRAITS", tu, results, un)
+    chk.instance("W-TRAITS", len(tu.obl))
+    if len(tu.obl) < 400:
+        chk.analysis_broken("W-TRAITS: only %d char_traits obligations" % len(tu.obl))
+
+
 def run(chk, tier):
     db = D.load("checks")
     plain = D.load("plain")
@@ -235,6 +273,7 @@ def run(chk, tier):
         chk.analysis_broken("REL: only %d string_view operators modelled" % n)
     compare3(chk, db)
     nulfree_rule(chk, db, VIEW, 60)
+    traits_witness(chk)
     # BOUND over every public member (plain configuration: bounds must hold without relying on a check firing)
     svf = [f for f in plain.funcs_of_record(VIEW) if f.get("kind") == "method" and f.get("access") == "public"]
     if len(svf) < 40:
